@@ -98,6 +98,47 @@ pub struct Wrap1(pub (u8,));
 pub struct WrapVV(pub Vec<Vec<u8>>);
 #[derive(serde::Serialize, Deserialize, PartialEq, Debug, Clone)]
 pub struct WrapOptSeq(pub Option<Vec<i8>>);
+/// Field and variant names spelled like numeric or other constants of some
+/// Lisp or of Rust's float printing: all of them are ordinary symbols here.
+#[derive(serde::Serialize, Deserialize, PartialEq, Debug, Clone)]
+pub struct Interval {
+    pub inf: i8,
+    pub sup: i8,
+    pub nan: bool,
+    #[serde(rename = "NaN")]
+    pub big_nan: u8,
+    pub e: u8,
+    #[serde(rename = "-inf")]
+    pub neg_inf: u8,
+    pub infinity: Option<u8>,
+}
+#[derive(serde::Serialize, Deserialize, PartialEq, Eq, PartialOrd, Ord, Debug, Clone)]
+pub enum Class {
+    #[serde(rename = "inf")]
+    Inf,
+    #[serde(rename = "-inf")]
+    NegInf,
+    NaN,
+    #[serde(rename = "nan")]
+    LowerNan,
+    #[serde(rename = "+inf")]
+    PosInf,
+    Infinity,
+    #[serde(rename = "e")]
+    E,
+    #[serde(rename = "-")]
+    Minus,
+    #[serde(rename = "...")]
+    Dots,
+    #[serde(rename = "->x")]
+    Arrow,
+    #[serde(rename = "true")]
+    True,
+    #[serde(rename = "null")]
+    Null,
+    #[serde(rename = "inf.0")]
+    Tagged(u8),
+}
 #[derive(serde::Serialize, Deserialize, PartialEq, Debug, Clone)]
 pub struct Nested {
     pub p: Point,
@@ -218,7 +259,7 @@ fn g_tree() -> BS<Tree> {
 
 /// Visit every type of the family with its strategy.
 /// number of `visit` calls made by [`for_each_type`]
-pub const N_FAM_TYPES: usize = 59;
+pub const N_FAM_TYPES: usize = 62;
 
 pub fn for_each_type<V: TypeVisitor>(v: &mut V) {
     v.visit::<i8>("i8", ints(i8::MIN as i128, i8::MAX as i128));
@@ -289,6 +330,37 @@ pub fn for_each_type<V: TypeVisitor>(v: &mut V) {
     v.visit::<Wrap1>("Wrap1((u8,))", any::<u8>().prop_map(|x| Wrap1((x,))).boxed());
     v.visit::<WrapVV>("WrapVV(Vec<Vec<u8>>)", vec(vec(any::<u8>(), 0..3), 0..3).prop_map(WrapVV).boxed());
     v.visit::<WrapOptSeq>("WrapOptSeq(Option<Vec<i8>>)", proptest::option::of(vec(any::<i8>(), 0..3)).prop_map(WrapOptSeq).boxed());
+    v.visit::<Interval>(
+        "Interval",
+        (any::<i8>(), any::<i8>(), any::<bool>(), any::<u8>(), any::<u8>(), any::<u8>(), proptest::option::of(any::<u8>()))
+            .prop_map(|(inf, sup, nan, big_nan, e, neg_inf, infinity)| Interval { inf, sup, nan, big_nan, e, neg_inf, infinity })
+            .boxed(),
+    );
+    v.visit::<Vec<Class>>(
+        "Vec<Class>",
+        vec((0u8..13, any::<u8>()), 0..5)
+            .prop_map(|ks| {
+                ks.into_iter()
+                    .map(|(k, x)| match k {
+                        0 => Class::Inf,
+                        1 => Class::NegInf,
+                        2 => Class::NaN,
+                        3 => Class::LowerNan,
+                        4 => Class::PosInf,
+                        5 => Class::Infinity,
+                        6 => Class::E,
+                        7 => Class::Minus,
+                        8 => Class::Dots,
+                        9 => Class::Arrow,
+                        10 => Class::True,
+                        11 => Class::Null,
+                        _ => Class::Tagged(x),
+                    })
+                    .collect()
+            })
+            .boxed(),
+    );
+    v.visit::<BTreeMap<Class, u8>>("BTreeMap<Class,u8>", btree_map((0u8..12).prop_map(|k| [Class::Inf, Class::NegInf, Class::NaN, Class::LowerNan, Class::PosInf, Class::Infinity, Class::E, Class::Minus, Class::Dots, Class::Arrow, Class::True, Class::Null][k as usize].clone()), any::<u8>(), 0..4).boxed());
     v.visit::<WithSkip>(
         "WithSkip",
         (
